@@ -9,6 +9,7 @@ import Qentem.Proofs.StrToNumSafe
 import Qentem.Proofs.StrToNumClosed
 import Qentem.Proofs.StrToNumExpPath
 import Qentem.Proofs.StrToNumNegIter
+import Qentem.Proofs.StrToNumPrefix
 /-! C09 — text to number: integers exact, reals within one ulp, out-of-range rejected. -/
 namespace Qentem.Props.C09
 open Qentem.StrToNum Qentem.Round Qentem.Generated.StrToNum
@@ -470,5 +471,72 @@ theorem negScale_error_bound (num x : Nat) (hn : num < 2 ^ 64) (hx : x ≤ 2 ^ 2
 example : negScale 1 5 = some (12089258196146291748, 5 + 64 + 11) ∧
     12089258196146291748 * 5 ^ 5 * 2 ^ 61 ≤ 1 * 2 ^ (64 + 11) * (2 ^ 61 + 1) ∧
     1 * 2 ^ (64 + 11) * 2 ^ 61 ≤ (12089258196146291748 + 1) * 5 ^ 5 * (2 ^ 61 + 1) := by decide
+
+
+/-! ### A digit run that reaches `end_offset` (for the JSON prefix-rejection proofs)
+
+`[-] digits` occupying exactly `[o, e)`: the converter either rejects (`-` alone, the empty text,
+leading zeros, out of range) or consumes everything — `0` → Natural 0, `-0` → Real −0, a value that
+fits → Natural/Integer (`int_exact_*`), anything longer → the real path — always with
+`offset = e`. It never stops in the middle of the digits. -/
+theorem strToNum_digits_to_end (c : List Nat) (o e : Nat) (neg : Bool) (ds : List Nat) (he : e < 2 ^ 32)
+    (hds : AllDigits ds) (hu : unitsAt c e o ((if neg then [45] else []) ++ ds))
+    (hend : o + b2n neg + ds.length = e) :
+    ∃ r, strToNum c o e = some r ∧ (r.kind = .notANumber ∨ r.offset = e) := by
+  have hu' := (unitsAt_append c e (if neg then [45] else []) ds o).1 hu
+  have hlen : (if neg then [45] else ([] : List Nat)).length = b2n neg := by cases neg <;> simp [b2n]
+  rw [hlen] at hu'
+  cases ds with
+  | nil =>
+    -- only the sign (or nothing at all)
+    cases neg with
+    | false =>
+      simp [b2n] at hend; subst hend
+      exact ⟨⟨.notANumber, 0, o⟩, by simp [strToNum], Or.inl rfl⟩
+    | true =>
+      simp only [if_true, b2n] at hu' hend
+      have h45 := hu'.1.1
+      have ho := rd_lt h45
+      refine ⟨⟨.notANumber, 0, o + 1⟩, ?_, Or.inl rfl⟩
+      unfold strToNum
+      simp only [ho, if_true, h45]
+      unfold afterSign
+      simp [show ¬ (o + 1 < e) by simp at hend; omega]
+  | cons d1 xs =>
+    have hd1 : isDigit d1 = true := hds d1 (by simp)
+    have hf : d1 ≠ 45 ∧ d1 ≠ 43 := by simp [isDigit] at hd1; omega
+    have hs : (if neg then [45] else ([] : List Nat)) = [] ∨ (if neg then [45] else ([] : List Nat)) = [43] ∨
+        (if neg then [45] else ([] : List Nat)) = [45] := by cases neg <;> simp
+    have hu1 : unitsAt c e o ((if neg then [45] else []) ++ [d1]) :=
+      (unitsAt_append c e _ [d1] o).2 ⟨hu'.1, by rw [hlen]; exact hu'.2.1, trivial⟩
+    have hdec : decide ((if neg then [45] else ([] : List Nat)) = [45]) = neg := by cases neg <;> simp
+    rw [strToNum_after_sign c o e _ d1 hs hu1 hf, hlen, hdec]
+    have h0 : rd c e (o + b2n neg) = some d1 := hu'.2.1
+    simp only [List.length_cons] at hend
+    by_cases hnz : isNonZeroDigit d1 = true
+    · have hdig : digitsOn c e (o + b2n neg + 1) e := by
+        have := digitsOn_of_unitsAt c e xs (o + b2n neg + 1) (fun y hy => hds y (by simp [hy])) hu'.2.2
+        rw [show o + b2n neg + 1 + xs.length = e by omega] at this; exact this
+      obtain ⟨r, h1, h2⟩ := afterSign_digits_to_end c e neg (o + b2n neg) d1 he h0 hnz hdig
+      exact ⟨r, h1, Or.inr h2⟩
+    · have h48 : d1 = 48 := by simp [isDigit] at hd1; simp [isNonZeroDigit] at hnz; omega
+      subst h48
+      cases xs with
+      | nil =>
+        simp at hend
+        have := afterSign_zero c e neg (o + b2n neg) he h0 (Or.inl (by omega))
+        rw [this]
+        cases neg
+        · exact ⟨_, rfl, Or.inr (by simp; omega)⟩
+        · exact ⟨_, rfl, Or.inr (by simp; omega)⟩
+      | cons d2 ys =>
+        have hd2 : isDigit d2 = true := hds d2 (by simp)
+        rw [afterSign_leadingZero c e neg (o + b2n neg) d2 h0 hu'.2.2.1 hd2]
+        exact ⟨_, rfl, Or.inl rfl⟩
+
+/-- lone `-`, `-0`, `0`, a 25-digit run: rejected resp. consumed to the end -/
+example : strToNum [45] 0 1 = some ⟨.notANumber, 0, 1⟩ := by decide
+example : strToNum [45, 48] 0 2 = some ⟨.real, 2 ^ 63, 2⟩ := by decide
+example : (strToNum [49,50,51,52,53,54,55,56,57,48,49,50,51,52,53,54,55,56,57,48,49,50,51,52,53] 0 25).map (·.offset) = some 25 := by decide
 
 end Qentem.Props.C09
